@@ -141,7 +141,16 @@ pub fn roundtrip(e: &Expr) -> Result<(), String> {
             for p in parts.as_array().cloned().unwrap_or_default() {
                 match p["type"].as_str() {
                     Some("literal") => out.push(p["text"].as_str().unwrap_or("").to_string()),
-                    Some("unit") => out.push(p["name"].as_str().unwrap_or("").to_string()),
+                    Some("unit") => {
+                        // a client writes a name that is not a plain identifier between double quotes
+                        let name = p["name"].as_str().unwrap_or("").to_string();
+                        let plain = matches!(catch(|| parse_full(&name)), Ok((Expr::Unit { name: ref n }, true)) if n == &name);
+                        if plain {
+                            out.push(name)
+                        } else {
+                            out.push(format!("\"{}\"", name.replace('\\', "\\\\").replace('"', "\\\"")))
+                        }
+                    }
                     Some("property") => {
                         out.push(format!("{} of", p["property"].as_str().unwrap_or("")));
                         join(&p["subject"], out);
@@ -468,6 +477,76 @@ pub fn run(cx: &Cx) -> Report {
         |sk| json!({"sk": sk, "text": sk.render()}),
     ));
     rep.mark(cx, "random");
+    // the expressions that are actually shown and exchanged: every expression of the bundled
+    // definition files, as the definitions parser produces them (a different producer than the
+    // query parser: `in`, `to`, `%` are ordinary names there, `a - b - c` nests to the right)
+    {
+        fn consts_exact(e: &Expr) -> bool {
+            match e {
+                Expr::Const { .. } => matches!(catch(|| parse_full(&e.to_string())), Ok((ref back, true)) if back == e),
+                Expr::BinOp(b) => consts_exact(&b.left) && consts_exact(&b.right),
+                Expr::UnaryOp(u) => consts_exact(&u.expr),
+                Expr::Mul { exprs } => exprs.iter().all(consts_exact),
+                Expr::Call { args, .. } => args.iter().all(consts_exact),
+                Expr::Of { expr, .. } => consts_exact(expr),
+                _ => true,
+            }
+        }
+        let mut items: Vec<(String, String, Expr)> = vec![];
+        for (file, text) in [("definitions.units", rink_core::DEFAULT_FILE.unwrap_or("")), ("currency.units", rink_core::CURRENCY_FILE.unwrap_or(""))] {
+            let mut parsed = vec![];
+            let _ = crate::props::c08::capture_stdout(|| parsed = rink_core::loader::gnu_units::parse_str(text).defs);
+            for entry in parsed {
+                match &*entry.def {
+                    rink_core::ast::Def::Unit { expr } | rink_core::ast::Def::Quantity { expr } | rink_core::ast::Def::Prefix { expr, .. } => {
+                        items.push((file.to_string(), entry.name.clone(), expr.0.clone()));
+                    }
+                    rink_core::ast::Def::Substance { properties, .. } => {
+                        for p in properties {
+                            items.push((file.to_string(), format!("{}.{} (input)", entry.name, p.name), p.input.0.clone()));
+                            items.push((file.to_string(), format!("{}.{} (output)", entry.name, p.name), p.output.0.clone()));
+                        }
+                    }
+                    _ => {}
+                }
+            }
+        }
+        rep.stats.note("bundled_expressions", json!(items.len()));
+        let k = known.clone();
+        rep.absorb(par_sweep(
+            cx,
+            "bundled-definitions",
+            items,
+            move || k.clone(),
+            |known, (file, name, e), st| {
+                if has_error(e) {
+                    st.excluded("definition with a parse error node");
+                    return Ok(());
+                }
+                if !consts_exact(e) {
+                    st.excluded("numeric literal does not print exactly (outside the precondition)");
+                    return Ok(());
+                }
+                st.eval();
+                st.class("bundled_definition_expression");
+                st.nontrivial(&(file.as_str(), name.as_str()));
+                match roundtrip(e) {
+                    Ok(()) => Ok(()),
+                    Err(d) => {
+                        let sig = "print-reparse:bundled-definition";
+                        if known.contains(sig) {
+                            st.known(sig, name);
+                            Ok(())
+                        } else {
+                            Err(format!("[{}] {} `{}`: {}", sig, file, name, d))
+                        }
+                    }
+                }
+            },
+            |(file, name, e)| json!({"bundled": {"file": file, "name": name, "printed": e.to_string()}}),
+        ));
+        rep.mark(cx, "bundled-definitions");
+    }
     rep
 }
 
